@@ -334,7 +334,7 @@ def func_int_general(Y, X, basis_func, rcond=1.E-6):
 
         Q = sp.linalg.lstsq(H_mat, M, overwrite_a=False, overwrite_b=True,
             cond=rcond)[0]
-        Q = np.transpose(Q.reshape(n, r1, r2), [1, 0, 2])
+        Q = np.transpose(Q.reshape(-1, r1, r2), [1, 0, 2])
         A.append(Q)
 
     return A
